@@ -15,4 +15,5 @@ C_AnnounceActive == 5
 C_ProtocolBlocks == 30
 C_CoolDown == 5
 C_AttemptMaxBlocks == 41
+C_Interlude == 2
 =============================================================================
